@@ -5,8 +5,9 @@ import N0Verif.Model.Tlv
   Model of `n0struct_files_fwf.parse_fwf_row`, `generate_fwf_row` and of the row loop
   of `load_fwf` (over the list of lines that `load_lines` yields).
 
-  The model follows the code **with fix C16-b applied**
-  (`failed_rows.append((i, *parsed_row))`).
+  The model follows the code **with fixes C16-b and C16-d applied**
+  (`failed_rows.append((i, *parsed_row))`; a failed validation of a column without
+  `error_message` contributes a default message instead of `None`).
 
   Scope: offsets / widths / sizes are natural numbers or `None`; the `validations`
   and `mapping` entries are Python source strings handed to `eval` — the model takes
@@ -48,22 +49,34 @@ def colValue (row : Str) (c : PCol) : Option Str :=
       | none => c.width.map (fun w => off + w)
     till.map (fun t => slice row off t)
 
-def parseCols (row : Str) (validate : Bool) : List PCol → Row → Except PyErr RowRes
-  | [], acc => .ok (.parsed acc)
+/-- the message a failed validation contributes: the column's `error_message`, or (fix C16-d, when
+the layout gives none) `f"Validation rule #{validation_i} for '{column_name}' failed"` -/
+def failMsg (c : PCol) (i : Nat) : Str :=
+  match c.errorMessage with
+  | some m => m
+  | none => "Validation rule #".toList ++ natRepr i ++ " for '".toList ++ c.name ++ "' failed".toList
+
+/-- `error_messages`: `for validation_i, validation in enumerate(validations)` (from index `i` on),
+one message per validation whose result is falsy -/
+def failedMsgs (c : PCol) (v : Option Str) (row : Str) (acc : Row) : Nat → List Validation → List Str
+  | _, [] => []
+  | i, f :: fs =>
+    if f v row acc then failedMsgs c v row acc (i + 1) fs
+    else failMsg c i :: failedMsgs c v row acc (i + 1) fs
+
+def parseCols (row : Str) (validate : Bool) : List PCol → Row → RowRes
+  | [], acc => .parsed acc
   | c :: cs, acc =>
     let v := colValue row c
     if validate && !c.validations.isEmpty then
-      let failed := c.validations.filter (fun f => !f v row acc)
-      if !failed.isEmpty then
-        match c.errorMessage with
-        | none => .error .TypeError                      -- ";".join([None, …])
-        | some m => .ok (.rejected row (join [';'] (failed.map (fun _ => m))))
+      let msgs := failedMsgs c v row acc 0 c.validations
+      if !msgs.isEmpty then .rejected row (join [';'] msgs)
       else parseCols row validate cs (acc ++ [(c.name, v)])
     else parseCols row validate cs (acc ++ [(c.name, v)])
 
 /-- `parse_fwf_row(incoming_row, fwf_format, validate)` -/
 def parseRow (row : Str) (fmt : List PCol) (validate : Bool) : Except PyErr RowRes :=
-  if fmt.isEmpty then .error .SyntaxError else parseCols row validate fmt []
+  if fmt.isEmpty then .error .SyntaxError else .ok (parseCols row validate fmt [])
 
 /-! ### load_fwf -/
 
